@@ -134,6 +134,13 @@ CHECKS["C19"] = dict(
     design_ref="3/C19",
 )
 
+CHECKS["C11"] = dict(
+    technique="Hypothesis-generated small puzzle instances (planted solution, derived then dropped/perturbed clues) decided exhaustively by independent rule checkers and candidate enumerators (reference model), compared with solve_<puzzle> cell by cell",
+    text="All 26 listed modules have an independent spec in /verif/puzzles: a generator of small boards incl. non-square ones with clues on the border and zero clues, a candidate enumerator (all 2^cells markings; all simple cycles of the lattice plus 'no line'; Latin squares by backtracking; connected partitions; 5^k triangle fillings with a geometric rectangle test) and a rule checker transcribed from the published rules (DESIGN.md Appendix A). For each instance the set V of rule-obeying grids is computed; solve_<puzzle> must report a solution iff V is non-empty and every answer-key cell must be the value common to V or None when V disagrees. Instances where a don't-care candidate (rule corner on which published rule sets differ) exists are skipped and counted. Exhaustive per instance, sampled over instances (quick: 200 per puzzle; thorough: 2400).",
+    note="Trusted base: the rule transcriptions in /verif/puzzles (three-valued), default backend z3. Board sizes are bounded by the enumerators (<= 12-16 cells, loops on <= 4x4 / 4x5 cells). 26/26 per-puzzle sensitivity mutants caught (four design-list mutants were equivalent and replaced, see tools/mutant_table.py). Found and fixed the aquarium table defect.",
+    design_ref="3/C11",
+)
+
 NOT_BUILT_REASON = "check not built yet in this session (planned in DESIGN.md section 3); not claimed until it runs quietly and is mutation-tested"
 
 def main():
